@@ -821,7 +821,7 @@ class RelativeENUPositionMessage(MessagePayload):
     GNSS antennas. See @ref GNSSAttitudeOutput instead.
     """
     MESSAGE_TYPE = MessageType.RELATIVE_ENU_POSITION
-    MESSAGE_VERSION = 0
+    MESSAGE_VERSION = 1
 
     INVALID_REFERENCE_STATION = 0xFFFFFFFF
 
